@@ -1215,8 +1215,12 @@ class XsdGroup(XsdComponent, MutableSequence[ModelParticleType],
             reason = _("wrong content type {!r}").format(type(obj.content))
             context.validation_error(validation, self, reason, elem)
 
-        if not self.mixed and (text is not None and str(text).strip() or cdata_between) and self and \
-                (len(self) > 1 or not isinstance(self[0], XsdAnyElement)):
+        # An empty content admits no character data at all, an element-only one white spaces
+        if text is not None and (str(text) if not self else str(text).strip()):
+            cdata_between = True
+
+        if not self.mixed and cdata_between and \
+                (len(self) != 1 or not isinstance(self[0], XsdAnyElement)):
             reason = _("character data between child elements not allowed")
             context.validation_error(validation, self, reason, elem)
 
